@@ -208,7 +208,16 @@ def _weights(chk):
         for s in stars:
             for p in ff.paths(s, spine_only=False):
                 src = p.atom.name in ("iter_kwargs", "self._iter_kwargs")
-                indexed = any(o.kind == "subscript" and o.name == "i" for o in p.ops)
+                # indexed with the position of the data item: the index variable and the item are the two targets of
+                # one `for i, x in enumerate(<data list>)`
+                indexed = False
+                for o in p.ops:
+                    if o.kind == "subscript" and isinstance(getattr(o.node, "slice", None), ast.Name) and pc[0].args and isinstance(pc[0].args[0], ast.Name):
+                        di = ff.rd.reaching(o.node.slice.id, ff.node_of(o.node))
+                        dx = ff.rd.reaching(pc[0].args[0].id, ff.node_of(pc[0]))
+                        if len(di) == 1 and len(dx) == 1 and isinstance(di[0].stmt, ast.For) and di[0].stmt is dx[0].stmt and tuple(di[0].index) == (0,) \
+                                and tuple(dx[0].index) == (1,) and isinstance(di[0].stmt.iter, ast.Call) and norm(di[0].stmt.iter.func) == "enumerate":
+                            indexed = True
                 if src and indexed:
                     ok = True
     chk.check(ok, "WIRE.weights.per_item", gf, pc[0] if pc else gf.node, construct="proc.fit(x, ..., **{k: v[i]})",
